@@ -338,7 +338,9 @@ class MultiVector:
         return self._values[idx] if swaps % 2 == 0 else - self._values[idx]
 
     def __contains__(self, item):
-        item = item if isinstance(item, int) else self.algebra.canon2bin[item]
+        if not isinstance(item, int):
+            # Any spelling of a basis blade; a blade outside the algebra is not contained.
+            item = self.algebra.canon2bin.get(self.algebra._blade2canon(item)[0])
         return item in self._keys
 
     def __bool__(self):
